@@ -14,7 +14,7 @@ ID = "C14"
 LEVEL = "exploration"
 RULE = ("case = generated hierarchy source: components in ragged nested lists (depth 1-3, empty rows included), interfaces (nested, in lists), caller/callee method ports, signals and ragged lists of signals of Bits/struct type (nested structs, "
         "list fields), and field / slice / slice-of-field / list-element signals materialised through update-block reads "
-        "(constant and variable indices) and connections; after elaborate(), over every object of "
+        "(constant and variable indices) and connections (nested slices also on struct fields); after elaborate(), over every object of "
         "get_all_object_filter plus all members of value nets: repr injective, eval(repr(o),{'s':top}) is o, "
         "get_parent_object() is eval(prefix(name)), host component = nearest component on the path, component level = "
         "component hops, top-level-signal / field-name metadata consistent with the name, a second fresh elaboration "
